@@ -52,6 +52,8 @@ type rigA struct {
 	arrivals     []uint32
 	released     int
 	beforeCliAdd func()
+	// onRelease may consume the picked item itself (fault injection); it returns true when it did
+	onRelease func(*vk.Item) bool
 }
 
 func (g *rigA) segFor(dir int) vk.SegFunc {
@@ -174,8 +176,25 @@ func (g *rigA) pump(policy string) {
 				cand = heads
 			}
 			pick = cand[g.rng.IntN(len(cand))]
+		case "close-first", "close-last":
+			var closing, other []*vk.Item
+			for _, h := range heads {
+				if f, err := g.ref.Decode(h.Data[5:]); err == nil && f.Closing != 0 {
+					closing = append(closing, h)
+				} else {
+					other = append(other, h)
+				}
+			}
+			cand := closing
+			if (policy == "close-last" && len(other) > 0) || len(closing) == 0 {
+				cand = other
+			}
+			pick = cand[g.rng.IntN(len(cand))]
 		default: // random merge
 			pick = heads[g.rng.IntN(len(heads))]
+		}
+		if g.onRelease != nil && g.onRelease(pick) {
+			continue
 		}
 		g.note(pick)
 		g.net.Release(pick)
